@@ -874,6 +874,8 @@ def call_ext(it, dotted, args, kwargs):
             if isinstance(v, Obj):
                 return ClassRef(v.cls)
             return Opaque('type(%r)' % (v,))
+        if short == 'object' and not args:
+            return Opaque('object()')       # a sentinel: only its identity matters
         raise Undecidable('builtin %s' % short)
     # ---------------- numpy / math / cmath scalar functions
     if short in ('sqrt', 'cos', 'sin', 'tan', 'exp', 'log') and mod in ('numpy', 'math', 'cmath', 'np'):
